@@ -59,7 +59,7 @@ theorem sample_total_grid (w : Wf) (hw : wf w = true) (ch : Chan) (hch : ch ∈ 
   have := sample_total w hw ch t hch (h t ht).1 (h t ht).2
   intro e; rw [e] at this; simp at this
 
-/-- open finding PF-27: the witness chain (a parallel-channel transformation that produces an input of
+/-- open finding PF-C08d: the witness chain (a parallel-channel transformation that produces an input of
 a later linear transformation) is outside `wf` -/
 theorem pf27_witness_not_wf :
     wf (.trans (.multi [.const 1 3 "a", .const 1 1 "Z", .const 1 2 "b"])
@@ -119,19 +119,19 @@ theorem eq_refl (a : Wf) : eqv a a = true := eqv_refl a
 
 `SamplesAlike s p`: equal duration, same channel set, equal samples on `[0, duration]`. -/
 
-/-- `from_table` vs `TableWaveform` — proved outside the class of open finding PF-26 (`endOk`: the
+/-- `from_table` vs `TableWaveform` — proved outside the class of open finding PF-C08c (`endOk`: the
 table does not end with a zero-length `hold` segment).  Full statement: without `hend`; it is false,
 see `validate_dedup_counterexample`. -/
 theorem smart_eq_plain_table_partial (ch : Chan) (raw : List Entry) (s : Wf)
     (h : fromTable ch raw = .ok s) (hend : endOk raw) : SamplesAlike s (.table ch raw) :=
   smart_table_aux ch raw s h hend
 
-/-- the de-duplicated table samples like the raw table at every time (outside the PF-26 class) -/
+/-- the de-duplicated table samples like the raw table at every time (outside the PF-C08c class) -/
 theorem validate_dedup_sound_partial (raw es : List Entry) (h : validateInput raw = .ok (.entries es))
     (hend : endOk raw) (t : Rat) : tableSample es t = tableSample raw t :=
   validate_dedup_aux raw es h hend t
 
-/-- PF-26: with three entries at the final time and `hold`, de-duplication changes the last sample -/
+/-- PF-C08c: with three entries at the final time and `hold`, de-duplication changes the last sample -/
 theorem validate_dedup_counterexample :
     (match validateInput [⟨0, 0, .hold⟩, ⟨1, 1, .hold⟩, ⟨1, 2, .hold⟩, ⟨1, 3, .hold⟩] with
       | .ok (.entries es) => tableSample es 1
